@@ -8,7 +8,9 @@
    b. `eval` vs. CPython: outcome kind, return value and probe log of every call vector.
    A perturbation stream (one ill-typing edit of an accepted program) checks that both reject the same edits.
 3. Search — the property's own oracle on the real code, for model programs, their perturbations, the known
-   unsound shapes (explicit replays) and a wider stream outside the model: run what mypy accepts under CPython
+   unsound shapes (explicit replays), a wider template stream outside the model (wide.py) and a flow fuzzer
+   (flow.py: nested try frames, or/and over subclass-related falsy-capable classes, repeated truthiness tests,
+   speculative uses that are kept only where mypy accepts them): run what mypy accepts under CPython
    and look for (i) TypeError/AttributeError, (ii) a probe value outside mypy's exported type, (iii) execution
    of a block mypy marked unreachable.
 """
